@@ -8,7 +8,7 @@ FFT_STUBS = ["RealFftPlanner::new -> zeroed planner", "plan_fft_forward/inverse 
 
 
 def H(mod, props, tier="quick", cap=420, sym="", bounds="", stubs=(), untagged="C03",
-      witness=False, thorough_cap=3600, mem=4, props_thorough=()):
+      witness=False, thorough_cap=None, mem=4, props_thorough=()):
     """props: properties whose quick AND thorough checks run this harness;
     props_thorough: properties that additionally run it in their thorough tier only
     (a harness whose scenario is owned by another property but whose monitors also
@@ -92,7 +92,7 @@ HARNESSES.update({
 _TYPES = {"ffi": "FastFixedIn", "ffo": "FastFixedOut", "sfi": "SincFixedIn+Probe", "sfo": "SincFixedOut+Probe"}
 _STEP_ROWS = [('c03_ffi_nearest_full', 'ffi', 'f64', 'PolynomialDegree::Nearest', 2, 2.0, 20, '[(1.0, 4)]', 'full', 'quick'), ('c03_ffi_nearest_grid', 'ffi', 'f64', 'PolynomialDegree::Nearest', 2, 2.0, 20, '[(1.0, 4)]', 'grid', 'thorough'), ('c03_ffi_linear_full', 'ffi', 'f64', 'PolynomialDegree::Linear', 2, 2.0, 20, '[(0.5, 5)]', 'full', 'thorough'), ('c03_ffi_linear_grid', 'ffi', 'f64', 'PolynomialDegree::Linear', 2, 2.0, 20, '[(0.5, 5)]', 'grid', 'quick'), ('c03_ffi_cubic_full', 'ffi', 'f32', 'PolynomialDegree::Cubic', 2, 3.0, 22, '[(3.0, 2)]', 'full', 'thorough'), ('c03_ffi_cubic_grid', 'ffi', 'f32', 'PolynomialDegree::Cubic', 2, 3.0, 22, '[(3.0, 2)]', 'grid', 'quick'), ('c03_ffi_quintic_full', 'ffi', 'f32', 'PolynomialDegree::Quintic', 3, 2.0, 22, '[(0.5, 4)]', 'full', 'thorough'), ('c03_ffi_quintic_grid', 'ffi', 'f32', 'PolynomialDegree::Quintic', 3, 2.0, 22, '[(0.5, 4)]', 'grid', 'thorough'), ('c03_ffi_septic_full', 'ffi', 'f32', 'PolynomialDegree::Septic', 3, 2.0, 22, '[(1.0, 3)]', 'full', 'thorough'), ('c03_ffi_septic_grid', 'ffi', 'f32', 'PolynomialDegree::Septic', 3, 2.0, 22, '[(1.0, 3)]', 'grid', 'thorough'), ('c03_ffo_nearest_full', 'ffo', 'f64', 'PolynomialDegree::Nearest', 2, 2.0, 20, '[]', 'full', 'quick'), ('c03_ffo_nearest_grid', 'ffo', 'f64', 'PolynomialDegree::Nearest', 2, 2.0, 20, '[]', 'grid', 'thorough'), ('c03_ffo_linear_full', 'ffo', 'f64', 'PolynomialDegree::Linear', 3, 3.0, 24, '[(1.0 / 3.0, 2)]', 'full', 'quick'), ('c03_ffo_linear_grid', 'ffo', 'f64', 'PolynomialDegree::Linear', 3, 3.0, 24, '[(1.0 / 3.0, 2)]', 'grid', 'thorough'), ('c03_ffo_cubic_full', 'ffo', 'f32', 'PolynomialDegree::Cubic', 2, 3.0, 22, '[(3.0, 2)]', 'full', 'quick'), ('c03_ffo_cubic_grid', 'ffo', 'f32', 'PolynomialDegree::Cubic', 2, 3.0, 22, '[(3.0, 2)]', 'grid', 'thorough'), ('c03_ffo_quintic_full', 'ffo', 'f32', 'PolynomialDegree::Quintic', 2, 2.0, 20, '[(0.5, 1)]', 'full', 'thorough'), ('c03_ffo_quintic_grid', 'ffo', 'f32', 'PolynomialDegree::Quintic', 2, 2.0, 20, '[(0.5, 1)]', 'grid', 'quick'), ('c03_ffo_septic_full', 'ffo', 'f32', 'PolynomialDegree::Septic', 2, 2.0, 20, '[(1.0, 1)]', 'full', 'thorough'), ('c03_ffo_septic_grid', 'ffo', 'f32', 'PolynomialDegree::Septic', 2, 2.0, 20, '[(1.0, 1)]', 'grid', 'quick'), ('c03_sfi_nearest_full', 'sfi', 'f64', 'boxed64, SincInterpolationType::Nearest, 8, 1', 2, 2.0, 20, '[(1.0, 4)]', 'full', 'quick'), ('c03_sfi_nearest_grid', 'sfi', 'f64', 'boxed64, SincInterpolationType::Nearest, 8, 1', 2, 2.0, 20, '[(1.0, 4)]', 'grid', 'thorough'), ('c03_sfi_linear_full', 'sfi', 'f64', 'boxed64, SincInterpolationType::Linear, 8, 2', 2, 2.0, 20, '[(0.5, 5)]', 'full', 'thorough'), ('c03_sfi_linear_grid', 'sfi', 'f64', 'boxed64, SincInterpolationType::Linear, 8, 2', 2, 2.0, 20, '[(0.5, 5)]', 'grid', 'quick'), ('c03_sfi_cubic_full', 'sfi', 'f32', 'boxed32, SincInterpolationType::Cubic, 8, 4', 2, 2.0, 20, '[(2.0, 3)]', 'full', 'thorough'), ('c03_sfi_cubic_grid', 'sfi', 'f32', 'boxed32, SincInterpolationType::Cubic, 8, 4', 2, 2.0, 20, '[(2.0, 3)]', 'grid', 'quick'), ('c03_sfi_quadratic_full', 'sfi', 'f32', 'boxed32, SincInterpolationType::Quadratic, 8, 3', 2, 3.0, 22, '[(3.0, 2)]', 'full', 'thorough'), ('c03_sfi_quadratic_grid', 'sfi', 'f32', 'boxed32, SincInterpolationType::Quadratic, 8, 3', 2, 3.0, 22, '[(3.0, 2)]', 'grid', 'quick'), ('c03_sfo_nearest_full', 'sfo', 'f64', 'boxed64, SincInterpolationType::Nearest, 8, 1', 2, 2.0, 20, '[]', 'full', 'quick'), ('c03_sfo_nearest_grid', 'sfo', 'f64', 'boxed64, SincInterpolationType::Nearest, 8, 1', 2, 2.0, 20, '[]', 'grid', 'thorough'), ('c03_sfo_linear_full', 'sfo', 'f64', 'boxed64, SincInterpolationType::Linear, 8, 2', 3, 3.0, 24, '[(1.0 / 3.0, 2)]', 'full', 'thorough'), ('c03_sfo_linear_grid', 'sfo', 'f64', 'boxed64, SincInterpolationType::Linear, 8, 2', 3, 3.0, 24, '[(1.0 / 3.0, 2)]', 'grid', 'quick'), ('c03_sfo_cubic_full', 'sfo', 'f32', 'boxed32, SincInterpolationType::Cubic, 8, 4', 3, 2.0, 20, '[(1.0, 1)]', 'full', 'thorough'), ('c03_sfo_cubic_grid', 'sfo', 'f32', 'boxed32, SincInterpolationType::Cubic, 8, 4', 3, 2.0, 20, '[(1.0, 1)]', 'grid', 'quick'), ('c03_sfo_quadratic_full', 'sfo', 'f32', 'boxed32, SincInterpolationType::Quadratic, 8, 3', 2, 3.0, 22, '[(3.0, 2)]', 'full', 'thorough'), ('c03_sfo_quadratic_grid', 'sfo', 'f32', 'boxed32, SincInterpolationType::Quadratic, 8, 3', 2, 3.0, 22, '[(3.0, 2)]', 'grid', 'quick')]
 for (hn, mac, T, args, chunk, maxrel, unw, warm, dom, tier) in _STEP_ROWS:
-    HARNESSES[hn] = H("c03", ["C03", "C04"], tier=tier, cap=600, thorough_cap=5400, mem=6,
+    HARNESSES[hn] = H("c03", ["C03", "C04"], tier=tier, cap=600, mem=6,
         sym=("new ratio: every f64 accepted by set_resample_ratio (D_full)" if dom == "full" else
              "new ratio: k/32, k any u8 accepted by the setter (D_grid)") + "; ramp: bool; caller buffer surplus lengths in [0,2]",
         bounds="%s<%s> %s, original ratio 1.0, chunk %d, max_rel %s, 1 channel; concrete warm-up (ratio, calls) %s; then 1 symbolic setter + 1 call; index-signal input, sentinel output; region [base]" % (_TYPES[mac], T, args, chunk, maxrel, warm))
@@ -179,13 +179,13 @@ _c10("c10_witness", "no reset before the comparison: must FAIL (vacuity witness)
 
 # ---------------------------------------------------------------- C16: wrappers == core call
 def _c16(name, bounds, sym, stubs=(), cap=600, witness=False, tier="quick", mod="c16"):
-    HARNESSES[name] = H(mod, ["C16"], cap=cap, sym=sym, bounds=bounds, stubs=stubs, untagged="C16", witness=witness, mem=(7 if stubs else 4), tier=tier, thorough_cap=5400)
+    HARNESSES[name] = H(mod, ["C16"], cap=cap, sym=sym, bounds=bounds, stubs=stubs, untagged="C16", witness=witness, mem=(7 if stubs else 4), tier=tier)
 _pv = "mask: None or Some([m0,m1]) symbolic; inactive channels are passed empty input slices"
 _c16("c16_process_ffo", "FastFixedOut<f64> Nearest chunk 2, 2 ch, fresh; process() vs process_into_buffer() on a twin, index-signal input", _pv, cap=900)
 _c16("c16_process_sfi", "SincFixedIn<f64>+Probe(2,1) Nearest chunk 6, 2 ch (estimate larger than written count: truncation)", _pv, tier="thorough")
 _c16("c16_process_ftio", "FftFixedInOut<f64> 2->3 chunk 2, 2 ch", _pv, stubs=FFT_STUBS, tier="thorough")
 _pp = "partial lengths l0 in [1,next), l1 in [0,next) independent; mask None/Some([true,m1]); masked channel may be empty"
-_c16("c16_process_ffi_ramp_pending", "FastFixedIn<f64> Nearest chunk 3, 1 ch, ramped change pending (to 0.5 or to 2.0): process() vs process_into_buffer with an output_frames_next()-sized buffer on a twin: both Ok, same count and values", "direction of the pending ramp")
+_c16("c16_process_ffi_ramp_pending", "FastFixedIn<f64> Nearest chunk 10 (frames are produced on the first call), 1 ch, ramped change pending (to 0.5 or to 2.0): process() vs process_into_buffer with an output_frames_next()-sized buffer on a twin: both Ok, same count and values", "direction of the pending ramp")
 _c16("c16_partial_ffo", "FastFixedOut<f64> Nearest chunk 6 (the last frames of the first call read the current input), 1 ch; process_partial_into_buffer(Some(x[..l])) vs zero-padded process_into_buffer on a twin", "partial length l in [1, next)")
 _c16("c16_partial_sfi", "SincFixedIn<f64>+Probe(2,1) chunk 6, 1 ch; as above", "partial length l in [1, next)")
 _c16("c16_partial_ffo_2ch", "FastFixedOut<f64> chunk 6, 2 ch: concrete partial lengths 5 and 2 (per-channel padding), mask [true,true]; vs zero-padded twin", "none (concrete lengths)")
@@ -224,7 +224,7 @@ HARNESSES["c11_sfi_ch1_sym"]["tier"] = "thorough"
 
 # ---------------------------------------------------------------- C17: f32 / f64 twins
 def _c17(name, bounds, sym, stubs=(), cap=600, witness=False, tier="quick"):
-    HARNESSES[name] = H("c17", ["C17"], cap=cap, sym=sym, bounds=bounds, stubs=stubs, untagged="C17", witness=witness, mem=(7 if stubs else 4), tier=tier, thorough_cap=5400)
+    HARNESSES[name] = H("c17", ["C17"], cap=cap, sym=sym, bounds=bounds, stubs=stubs, untagged="C17", witness=witness, mem=(7 if stubs else 4), tier=tier)
 _g = "setter argument: every f64; ramp; absolute/relative"
 _c17("c17_ffo_getters", "FastFixedOut<f32> vs <f64> (orig 0.75, max 2, Cubic, chunk 3): all getters before and after a ratio change, setter verdicts equal; no processing call", _g)
 _c17("c17_sfo_getters", "SincFixedOut<f32> vs <f64> +Probe(8,2) (orig 1.25, max 2): as above", _g)
@@ -247,7 +247,7 @@ _c17("c17_witness", "different chunk sizes: must FAIL (vacuity witness)", "none"
 # ---------------------------------------------------------------- C06 / C07 / C14 / C08(b): instants (index-signal observation)
 def _c06(name, props, bounds, sym, cap=900, witness=False, tier="quick"):
     own = [p for p in props if p != "C03"]
-    HARNESSES[name] = H("c06", own, cap=cap, sym=sym, bounds=bounds, untagged=own[0], witness=witness, mem=6, tier=tier, thorough_cap=5400, props_thorough=["C03"])
+    HARNESSES[name] = H("c06", own, cap=cap, sym=sym, bounds=bounds, untagged=own[0], witness=witness, mem=6, tier=tier, props_thorough=["C03"])
 _c06("c06_ffo_change_grid", ["C06", "C03"], "FastFixedOut<f64> Linear chunk 3, max_rel 2; 1 concrete warm-up call at ratio 1; then setter + 1 call; every output is the evaluation instant",
      "new ratio: k/32 (D_grid); ramp bool")
 _c06("c06_sfo_change_grid", ["C06", "C03"], "SincFixedOut<f64>+Probe(8,2) Linear chunk 3, max_rel 2; 1 warm-up call; setter + 1 call; probe asserts every window lies on supplied line data",
@@ -318,7 +318,7 @@ _c06("c06_sfo_after_ramp_grid", ["C06"], "SincFixedOut<f64>+Probe(8,2) Linear ch
 _c06("c07_ffi_slow", ["C07"], "FastFixedIn<f64> Linear chunk 7, constant ratio 0.1 (1/r = 10 > 7), 8 calls from the fresh state: uniform spacing across chunk boundaries, lag bound, at least 4 frames observed", "none (concrete slow ratio; the solver decides the safety checks and the float comparisons)")
 _c06("c08_ffo_cubic_poly", ["C08"], "FastFixedOut<f64> Cubic chunk 3: input is a cubic polynomial of the frame index; 2 calls; every frame inside the stream equals the polynomial at -4+(j+1)/r within 1e-9", "ratio k/32 (D_grid)", tier="thorough")
 for _n, _t in (("c03_ffo_two_steps", "FastFixedOut<f64> Nearest chunk 2"), ("c03_sfo_two_steps", "SincFixedOut<f64>+Probe(8,1) Nearest chunk 2"), ("c03_ffi_two_steps", "FastFixedIn<f64> Nearest chunk 2 (4 warm-up calls; k/32 grid)")):
-    HARNESSES[_n] = H("c03", ["C03", "C04"], tier="thorough", cap=3600, thorough_cap=7200, mem=8,
+    HARNESSES[_n] = H("c03", ["C03", "C04"], tier="thorough", cap=1800, thorough_cap=3600, mem=8,
         sym="TWO successive steps, each: new ratio (every accepted f64; FixedIn: k/32), ramp, surplus lengths", bounds=_t + ", max_rel 2; 1 warm-up call; region [base]")
 for _n, _t in (("c03_ffo_reset_step", "FastFixedOut<f64> Nearest chunk 2"), ("c03_sfo_reset_step", "SincFixedOut<f64>+Probe(8,1) Nearest chunk 2")):
     HARNESSES[_n] = H("c03", ["C03", "C04"], cap=900, sym="post-reset ratio change k/32 (D_grid); ramp; surplus lengths",
@@ -339,7 +339,7 @@ HARNESSES["c03_ffo_reset_plain"] = H("c03", ["C03", "C04"], cap=900, sym="ratio 
     bounds="FastFixedOut<f64> Nearest chunk 10, max_rel 2: setter, reset(), two plain calls (no setter after the reset); region [base]")
 _c05("c05_sfi_chunk_change_to3", "SincFixedIn<f64>+Probe(4,2) Linear, max chunk 8, ratio 1: 2 calls, set_chunk_size(3), 2 calls; strict probe and uniform instants", "none (concrete new size; the symbolic-size variant is thorough)")
 HARNESSES["c05_sfi_chunk_change"]["tier"] = "thorough"
-HARNESSES["c05_sfi_chunk_change"]["thorough_cap"] = 5400
+HARNESSES["c05_sfi_chunk_change"]["thorough_cap"] = 3600
 _c14("c14_ffo_grid", "FastFixedOut<f64> Linear chunk 3: ratio set once, 2 calls; every frame inside the stream: |j - (tau*ratio + output_delay())| <= max(1,ratio)+1", "ratio k/32 (D_grid)")
 HARNESSES["c14_ffo"]["tier"] = "thorough"
 
@@ -358,8 +358,19 @@ HARNESSES["c03_ffi_big_jump_kf"]["untagged_region"] = "recip_span_ge3"
 HARNESSES["c03_ffi_big_jump"]["tier"] = "thorough"
 
 HARNESSES["c17_real_new_20"]["tier"] = "thorough"
-HARNESSES["c17_real_new_20"]["thorough_cap"] = 5400
+HARNESSES["c17_real_new_20"]["thorough_cap"] = 3600
 
 for _n in ("c10_fto_2", "c10_fto_mult_2", "c10_fti_2", "c10_ffo_ctor_ratio"):
     HARNESSES[_n]["tier"] = "thorough"
     HARNESSES[_n]["thorough_cap"] = 3600
+
+
+# ---------------------------------------------------------------- thorough caps
+# default: twice the quick cap, at least 20 min, at most 1 h (explicit values above are kept)
+for _n, _h in HARNESSES.items():
+    if _h.get("thorough_cap") is None:
+        _h["thorough_cap"] = min(3600, max(2 * _h["cap"], 1200))
+# symbolic (orig, max) setter harnesses: did not terminate within 3600 s in a trial run; the same domain
+# is decided by Engine M (mirsym/setter.py). Kept as bounded attempts.
+for _n in ("c12_abs_ffi_sym", "c12_abs_ffi32_sym", "c12_abs_sfi_sym", "c12_rel_ffi_sym", "c12_rel_sfi_sym"):
+    HARNESSES[_n]["thorough_cap"] = 900
